@@ -573,6 +573,12 @@ class C12(Check):
             yield {"base": nb, "ops": [("nested", "s1", "s2"), ("get", "s1"), ("get", "s2"), ("edit", "one.yaml", "only_1: 3\n"),
                                        ("nested", "s2", "s1"), ("get", "s1"), ("get", "s2")],
                    "cache_size": cs, "engine": True, "ml": False, "ms": True, "allow_empty": False, "peek": True}
+        # a white-space-only name appears in top.yaml / an include list and goes away again (an init.yaml sits in the tree root)
+        wsb = dict(BASE, **{"init.yaml": "rootinit: 1\n"})
+        yield {"base": wsb, "ops": [("get", "s1"), ("edit", "top.yaml", "'*': [a, ' ']\n"), ("get", "s1"), ("get", "s2"),
+                                    ("edit", "top.yaml", BASE["top.yaml"]), ("get", "s1"), ("edit", "a.yaml", "k: 1\ninclude: [\"\\t\"]\n"), ("get", "s1"),
+                                    ("edit", "a.yaml", BASE["a.yaml"]), ("get", "s1")],
+               "cache_size": 64, "engine": False, "ml": False, "ms": True, "allow_empty": False}
         # text a template engine would treat as markup, with templating switched off (template: None through the factory)
         mk = {"top.yaml": "'*': [a]\n# {% if id == 's1' %}\n's1': [b]\n# {% endif %}\n", "a.yaml": "k: '{{ later }}'\ninclude: [b]\n",
               "b.yaml": "m: \"{# note #}x\"\n"}
